@@ -56,6 +56,13 @@ CHECKS.update({
   note="Trusted: z3/CrossHair, json and dill (C/py libraries, concrete values only). Unique names n0..nk. Outside: payloads dill cannot pickle; bigger graphs."),
 })
 
+CHECKS.update({
+ "C19": dict(category="other", design_ref="DESIGN.md §4 C19",
+  technique="solver-driven exhaustive enumeration (CrossHair/z3 decision tree) of builder call sequences through the real TaskBuilder/JobBuilder, against the harness' own well-formedness predicate",
+  text="Tasks are created with from_callable from a palette of seven signatures (no parameters, un-annotated, annotated with defaults, keyword-only, *args, bool default, str->str), values are bound positionally and by keyword (matching and mismatching types), edges have existing or dangling source task / source output / sink task / sink parameter, positional or keyword. build() must return ok exactly when the harness' independent well-formedness predicate holds and otherwise a non-empty list of problem strings, never raise; an accepted job has no dangling edge and carries exactly the bound values under their positions and names; jobs and builders obtained earlier are unchanged afterwards. Decision trees exhausted in the quick tier (edges and bound values explored separately; thorough explores the product).",
+  note="Trusted: z3/CrossHair, cloudpickle/pydantic/pyrsistent. Assumed: keyword values are bound only to parameters the callable has; a missing annotation is compatible with every type. Outside: the domain-specific type names in `skipped`."),
+})
+
 NA_REASON = "check not built yet in this round (planned, see DESIGN.md §4); not claimed until its harness exists and passes on the unchanged tree"
 
 def main():
